@@ -141,7 +141,7 @@ func ruleTags(cfg *Config) string {
 func checkFaultFree(cfg *Config, obs *Obs, ref *RefOut, out *sim.Outcome) {
 	tags := ruleTags(cfg)
 	if obs.Panic != "" {
-		out.Violate("panic", "panic:"+tags, "engine panicked: %s", obs.Panic)
+		out.Violate("panic", "panic:"+tags, "engine panicked: %s [%s]", obs.Panic, obs.PanicStack)
 		return
 	}
 	if obs.StepCap {
